@@ -50,6 +50,8 @@ package rapidproto
 //@   note DisallowNilMessages: a message field is only ever skipped when the option is off
 //@   assert[disallow-nil-honoured] at `continue`: !opts.DisallowNilMessages
 //@   assert[only-message-fields-are-left-unset] at `continue`: f.Kind() == protoreflect.MessageKind
+//@   note the special-cased generators (Timestamp, Duration, Any, FieldMask) are chosen by the type of the message being filled, wherever it sits (singular field, list element, map value, Any payload)
+//@   assert[dispatch-on-the-message-itself] at `switch fullName`: fullName == msg.Descriptor().FullName()
 //@   note an Any that cannot be generated (no type URL configured) is reported to the caller, which removes it
 //@   returns-result-of GeneratorOptions.genAny
 //@   loop 1: invariant 0 <= i
